@@ -196,6 +196,14 @@ def run_group(gs):
 
                     if scaling[0] == "objonly":
                         scaling = (np.zeros(prob.num_vars, dtype=int), np.zeros(prob.num_cons, dtype=int), int(scaling[1]))
+                    elif scaling[0] == "signed":
+                        # all variable weights of one sign (and not all zero), constraint / objective weights free
+                        srng = np.random.default_rng(scaling[1])
+                        wmax, sign = int(scaling[2]), int(scaling[3])
+                        vw = sign * srng.integers(0, wmax + 1, size=prob.num_vars)
+                        if not vw.any():
+                            vw[int(srng.integers(0, prob.num_vars))] = sign
+                        scaling = (vw, srng.integers(-wmax, wmax + 1, size=prob.num_cons), int(srng.integers(-wmax, wmax + 1)))
                     elif scaling[0] == "random":
                         srng = np.random.default_rng(scaling[1])
                         w = int(scaling[2])
